@@ -16,6 +16,7 @@ pub mod c15;
 pub mod c16;
 pub mod c17;
 pub mod c18;
+pub mod c18_route;
 pub mod c19;
 pub mod c20;
 
